@@ -40,6 +40,7 @@ def first_pass(path):
         if passes(commits[mid][0], path): hi = mid
         else: lo = mid
     return (commits[hi][0], commits[hi][1])
+if __name__ != "__main__": sys.argv = sys.argv[:2]
 record = "--record" in sys.argv
 paths = [a for a in sys.argv[2:] if not a.startswith("--")]
 if record:
